@@ -24,7 +24,17 @@ def run(ctx):
         for s in (1, 2, 3):
             for p in PROGS:
                 jobs.append('bkf%ds%d/-/P;%s' % (k, s, p))
-    run_queues(ctx, jobs, pb=2 if q else 3, max_exec=300 if q else 20000)
+    # sequential fill to the limit and beyond, then drain (rejection rule: only with >= (segments-1)*k+1 stored), incl. k that is not a power of two
+    for k in (1, 2, 3, 5, 6, 7):
+        for s in (1, 2, 3, 4):
+            if k * s > 30:
+                continue
+            fill = ','.join('push%d' % i for i in range(1, k * s + 2))
+            drain = ','.join(['pop'] * (k * s + 1))
+            jobs.append('bkf%ds%d/-/P;;%s,%s,%s' % (k, s, fill, drain, fill))
+    for k in (1, 2, 3, 5):
+        jobs.append('kf%d/hp3/P;;%s,%s' % (k, ','.join('push%d' % i for i in range(1, 2 * k + 3)), ','.join(['pop'] * (2 * k + 3))))
+    run_queues(ctx, jobs, pb=2 if q else 3, max_exec=400 if q else 20000)
     if not q:
         run_queues(ctx, jobs, pb=5, max_exec=0, mode='random', runs=800, tagx='r')
     for r in ctx.tv[:3]:
